@@ -206,6 +206,16 @@ class _GridUFuncSignature:
         ) == positions(other)
 
 
+def _split_name_position_pairs(arg: str) -> Tuple[Tuple[str, ...], Tuple[str, ...]]:
+    """Split one argument, '(name:pos,name:pos)' or the bare 'name:pos,name:pos' of a type hint, into names and positions."""
+    pairs = [
+        pair.split(":") for pair in arg.replace(" ", "").strip("()").split(",") if pair
+    ]
+    if any(len(pair) != 2 for pair in pairs):
+        raise ValueError(f"Not a valid list of axis_name:position pairs: {arg}")
+    return tuple(n for n, _ in pairs), tuple(p for _, p in pairs)
+
+
 def _parse_signature_from_string(
     signature: str,
 ) -> Tuple[T_AX_POS_LIST, T_AX_POS_LIST, T_AX_POS_LIST, T_AX_POS_LIST]:
@@ -223,23 +233,17 @@ def _parse_signature_from_string(
 
     in_txt, out_txt = signature.split("->")
 
-    in_ax_names = []
+    in_ax_names, in_ax_pos = [], []
     for arg in re.findall(_ARGUMENT, in_txt):
-        # Delete the axis positions so they aren't matched as axis names
-        only_names = re.sub(_AXIS_POSITION, "", arg)
-        in_ax_names.append(tuple(re.findall(_AXIS_NAME, only_names)))
+        names, positions = _split_name_position_pairs(arg)
+        in_ax_names.append(names)
+        in_ax_pos.append(positions)
 
-    out_ax_names = []
+    out_ax_names, out_ax_pos = [], []
     for arg in re.findall(_ARGUMENT, out_txt):
-        only_names = re.sub(_AXIS_POSITION, "", arg)
-        out_ax_names.append(tuple(re.findall(_AXIS_NAME, only_names)))
-
-    in_ax_pos = [
-        tuple(re.findall(_AXIS_POSITION, arg)) for arg in re.findall(_ARGUMENT, in_txt)
-    ]
-    out_ax_pos = [
-        tuple(re.findall(_AXIS_POSITION, arg)) for arg in re.findall(_ARGUMENT, out_txt)
-    ]
+        names, positions = _split_name_position_pairs(arg)
+        out_ax_names.append(names)
+        out_ax_pos.append(positions)
 
     return in_ax_names, in_ax_pos, out_ax_names, out_ax_pos
 
@@ -270,15 +274,11 @@ def _parse_signature_from_type_hints(
             if hasattr(hint, "__metadata__")
         ]
 
-        out_ax_names = []
+        out_ax_names, out_ax_pos = [], []
         for arg in return_annotations:
-            # Delete the axis positions so they aren't matched as axis names
-            only_names = re.sub(_AXIS_POSITION, "", arg)
-            out_ax_names.append(tuple(re.findall(_AXIS_NAME, only_names)))
-
-        out_ax_pos = [
-            tuple(re.findall(_AXIS_POSITION, arg)) for arg in return_annotations
-        ]
+            names, positions = _split_name_position_pairs(arg)
+            out_ax_names.append(names)
+            out_ax_pos.append(positions)
 
     # Now do input args
     arg_annotations = [
@@ -287,13 +287,11 @@ def _parse_signature_from_type_hints(
 
     # TODO check number of annotations?
 
-    in_ax_names = []
+    in_ax_names, in_ax_pos = [], []
     for arg in arg_annotations:
-        # Delete the axis positions so they aren't matched as axis names
-        only_names = re.sub(_AXIS_POSITION, "", arg)
-        in_ax_names.append(tuple(re.findall(_AXIS_NAME, only_names)))
-
-    in_ax_pos = [tuple(re.findall(_AXIS_POSITION, arg)) for arg in arg_annotations]
+        names, positions = _split_name_position_pairs(arg)
+        in_ax_names.append(names)
+        in_ax_pos.append(positions)
 
     # Do a sanity check before going any further
     str_signature = str(
